@@ -387,6 +387,14 @@ class Tracer(object):
     def dump_txs(self):
         return sorted(r[0] for r in self.q('SELECT id FROM "transaction"'))
 
+    def dump_tx_attrs(self):
+        """plugin-supplied attribute of every transaction record + the stamps the harness plugin handed out"""
+        sp = self.env.plugins.get('stamp')
+        if sp is None:
+            return None
+        return {'rows': sorted([r[0], r[1]] for r in self.q('SELECT id, remote_addr FROM "transaction"')),
+                'issued': list(sp.issued)}
+
     def dump_assoc(self):
         out = []
         for name, a in self.info.assoc.items():
